@@ -442,6 +442,69 @@ def mk_merge(ctx):
     ctx.check(not errs, 'merge', body, 'every node of other.dag and other.orphans re-applied', errs[0] if errs else '')
 
 
+def _dag_lookup_map(facts, body, t, src_ok):
+    """t is the map { h -> dag[h] : h in <source>, h present in dag }, written as `source.filter_map(|h| dag.get(h).map(|n| (h, n)))
+    .collect()` or as an explicit loop filling a local map; src_ok(container term) accepts the source."""
+    from .loops import fills_of, peel, loops_of
+    t0 = t
+    t = drop_lv(t)
+    if is_call(t, ('unwrap_or_default', 'unwrap_or_else', 'unwrap_or')) and t[2]:
+        t = drop_lv(inline_option_maps(facts, t[2][0]))
+    if is_call(t, ('collect', 'from_iter')) and t[2]:
+        src = t[2][-1]
+        base, kind, clo = iter_source(src)
+        if src_ok(base) and not (set(iter_adaptors(src)) & LOSSY_ADAPTORS):
+            for n, cl in clo:
+                if cl and cl[0] == 'closure':
+                    cb = facts.cb(cl[1])
+                    m = {('upvar', k): v for k, v in enumerate(cl[2])}
+                    cr = drop_lv(subst(interp(facts, cb).ret, m))
+                    for st in subterms(cr):
+                        if is_call(st, 'get') and len(st[2]) == 2 and param_path(st[2][0]) == (1, ('dag',)) and versionless(st[2][1]) == ('param', 2):
+                            return True
+        return False
+    # loop form: one fill of the returned local, in a complete loop over the source, reached exactly when dag holds the item
+    it = interp(facts, body)
+    root = peel(t0)
+    while root[0] == 'call' and call_name(root) in ('unwrap_or_default',) and root[2]:
+        root = peel(root[2][0])
+    fills = [f for f in fills_of(it)]
+    for f in fills:
+        lp = f.loop
+        base, kind, clo = iter_source(lp.src)
+        if not src_ok(base) or clo or (set(iter_adaptors(lp.src)) & LOSSY_ADAPTORS) or lp.early_exits():
+            continue
+        vals = [versionless(v) for v in f.vals]
+        # (key, value) or a (key, value) tuple
+        if len(vals) == 1 and vals[0][0] == 'tuple' and len(vals[0][1]) == 2:
+            vals = [versionless(vals[0][1][0]), versionless(vals[0][1][1])]
+        if len(vals) != 2:
+            continue
+        k, v = vals
+        from .loops import item_derived
+        if not item_derived(k, lp):
+            continue
+        g = v[1] if v[0] == 'field' and v[2] == 'Some.0' else v
+        if not (is_call(g, 'get') and len(g[2]) == 2 and param_path(g[2][0]) == (1, ('dag',)) and item_derived(g[2][1], lp)):
+            continue
+
+        def atom(x, lp=lp):
+            if x[0] == 'discr' and is_call(drop_lv(x[1]), 'get') and param_path(drop_lv(x[1])[2][0]) == (1, ('dag',)):
+                return ('map', 'hit', {True: 1, False: 0})
+            if is_call(x, ('is_some', 'is_none', 'contains_key')) and x[2]:
+                y = drop_lv(x[2][0])
+                if call_name(x) == 'contains_key' and param_path(y) == (1, ('dag',)):
+                    return 'hit'
+                if is_call(y, 'get') and param_path(y[2][0]) == (1, ('dag',)):
+                    return 'hit' if call_name(x) == 'is_some' else ('not', 'hit')
+            return None
+        rc_t = Reach(facts, body, Evaluator(facts, bool_atom=atom, assumption={'hit': True}))
+        rc_f = Reach(facts, body, Evaluator(facts, bool_atom=atom, assumption={'hit': False}))
+        if lp.must(rc_t, [f.bb]) and f.bb not in rc_f.reachable:
+            return True
+    return False
+
+
 @rule('MK-READ', floor=1, **read_attribution({
     'C15': 'read() returns exactly the visible nodes that no visible node lists as a child (the roots, looked up in dag)',
 }, module='merkle_reg'))
@@ -449,22 +512,15 @@ def mk_read(ctx):
     """MerkleReg::read = every root hash looked up in dag."""
     facts = ctx.facts
     body = ctx.inherent(MERKLE, 'read')
-    r = drop_lv(interp(facts, body).ret)
+    raw = interp(facts, body).ret
+    r = drop_lv(raw)
     ok = False
-    if r[0] == 'agg' and r[1].endswith('Content'):
-        nodes = dict(r[3]).get('nodes')
-        if is_call(nodes, 'collect') and nodes[2]:
-            src = nodes[2][0]
-            base, kind, clo = iter_source(src)
-            if param_path(base) == (1, ('roots',)) and not (set(iter_adaptors(src)) & LOSSY_ADAPTORS):
-                for n, cl in clo:
-                    if cl and cl[0] == 'closure':
-                        cb = facts.cb(cl[1])
-                        m = {('upvar', k): v for k, v in enumerate(cl[2])}
-                        cr = drop_lv(subst(interp(facts, cb).ret, m))
-                        for st in subterms(cr):
-                            if is_call(st, 'get') and len(st[2]) == 2 and param_path(st[2][0]) == (1, ('dag',)) and versionless(st[2][1]) == ('param', 2):
-                                ok = True
+    rr = raw
+    while rr[0] in ('lv', 'at'):
+        rr = rr[3] if rr[0] == 'lv' else rr[2]
+    if rr[0] == 'agg' and rr[1].endswith('Content'):
+        nodes = dict(rr[3]).get('nodes')
+        ok = _dag_lookup_map(facts, body, nodes, lambda base: param_path(base) == (1, ('roots',)))
     ctx.check(ok, 'read', body, 'roots looked up in dag', 'MerkleReg::read is %s, expected every hash of roots looked up in dag' % fmt(r, 5))
 
 
@@ -923,21 +979,36 @@ def mk_access(ctx):
     ctx.check(ok, 'parents', body, 'every dag node whose children contain the hash, and no other', 'MerkleReg::parents: ' + why)
     # children: the node under the asked hash, its children looked up in dag
     body = ctx.inherent(MERKLE, 'children')
-    r = drop_lv(inline_option_maps(facts, interp(facts, body).ret))
-    gets = [st for st in subterms(r) if is_call(st, 'get') and len(st[2]) == 2 and param_path(st[2][0]) == (1, ('dag',))]
-    own = [g for g in gets if value_path(drop_lv(g[2][1])) == (2, ())]
-    walk = [st for st in subterms(r) if st[0] == 'call' and call_name(st) in ('filter_map', 'map', 'filter') and st[2]
-            and versionless(iter_source(st[2][0])[0])[0] == 'field' and versionless(iter_source(st[2][0])[0])[2] == 'children'
-            and not (set(iter_adaptors(st[2][0])) & LOSSY_ADAPTORS)]
-    ok = bool(own) and bool(walk)
-    if ok:
-        st = walk[0]
-        ok = False
-        if st[2][1][0] == 'closure':
-            cb = facts.cb(st[2][1][1])
-            cr = drop_lv(inline_option_maps(facts, interp(facts, cb).ret))
-            inner = [g for g in subterms(cr) if is_call(g, 'get') and len(g[2]) == 2 and versionless(g[2][1]) == ('param', 2)]
-            ok = bool(inner)
+    raw = interp(facts, body).ret
+    rr = raw
+    while rr[0] in ('lv', 'at'):
+        rr = rr[3] if rr[0] == 'lv' else rr[2]
+    r = drop_lv(inline_option_maps(facts, raw))
+
+    def children_of_asked(base):
+        b = versionless(base)
+        if b[0] == 'field' and b[2] == 'children':
+            n = b[1]
+            if n[0] == 'field' and n[2] == 'Some.0':
+                n = n[1]
+            if n == ('param', 2):     # closure parameter standing for the looked-up node (Option::map)
+                return True
+            return is_call(n, 'get') and len(n[2]) == 2 and param_path(n[2][0]) == (1, ('dag',)) and value_path(drop_lv(n[2][1])) == (2, ())
+        return False
+    ok = False
+    if rr[0] == 'agg' and rr[1].endswith('Content'):
+        nodes = dict(rr[3]).get('nodes')
+        nv = inline_option_maps(facts, nodes)
+        while nv[0] == 'at':
+            nv = nv[2]
+        alts = list(nv[1]) if nv[0] == 'phi' else [nv]
+        # an alternative that is literally an empty map (not a local that starts empty and is filled in a loop)
+        full = [a for a in alts if not (a[0] == 'call' and call_name(a) in ('new', 'default') and not a[2])]
+        looked = any(is_call(st, 'get') and len(st[2]) == 2 and param_path(st[2][0]) == (1, ('dag',)) and value_path(drop_lv(st[2][1])) == (2, ())
+                     for st in subterms(drop_lv(inline_option_maps(facts, raw)))) or \
+            any(is_call(c_.term, 'get') and len(c_.args) == 2 and param_path(c_.args[0].val) == (1, ('dag',)) and value_path(drop_lv(c_.args[1].val)) == (2, ())
+                for c_ in interp(facts, body).calls.values())
+        ok = bool(full) and looked and all(_dag_lookup_map(facts, body, a, children_of_asked) for a in full)
     ctx.check(ok, 'children', body, 'children of dag[hash], each looked up in dag under its own hash',
               'MerkleReg::children is %s, expected the children of dag.get(hash) looked up in dag' % fmt(r, 6))
 
